@@ -182,9 +182,10 @@ func (cx *Ctx) emitSummaryOf(fn *ssa.Function, stack map[*ssa.Function]bool) *em
 		s.Decided = false
 		s.Why = "too many paths"
 	}
+	// a "handled" / "go on" flag as the (last) result: `data, deliver := marshalOrReply(...)`
 	boolOnly := false
-	if res := fn.Signature.Results(); res.Len() == 1 {
-		if b, ok := res.At(0).Type().Underlying().(*types.Basic); ok && b.Kind() == types.Bool {
+	if res := fn.Signature.Results(); res.Len() >= 1 {
+		if b, ok := res.At(res.Len()-1).Type().Underlying().(*types.Basic); ok && b.Kind() == types.Bool {
 			boolOnly = true
 		}
 	}
@@ -482,10 +483,10 @@ func (cx *Ctx) moduleCallee(c ssa.CallInstruction) *ssa.Function {
 // pathBoolResult: the constant a path of a bool-returning function returns (through phis of constants).
 func pathBoolResult(p *Path) (val, known bool) {
 	ret := p.Return()
-	if ret == nil || len(ret.Results) != 1 {
+	if ret == nil || len(ret.Results) < 1 {
 		return false, false
 	}
-	switch v := ret.Results[0].(type) {
+	switch v := ret.Results[len(ret.Results)-1].(type) {
 	case *ssa.Const:
 		if v.Value == nil {
 			return false, false
@@ -511,6 +512,10 @@ func pathPolarityOf(p *Path, call *ssa.Call) (side, tested bool) {
 				v, pol = u.X, !pol
 			}
 			if v == ssa.Value(call) {
+				return pol, true
+			}
+			// the flag is the last of several results
+			if ex, isE := v.(*ssa.Extract); isE && ex.Tuple == ssa.Value(call) && ex.Index == call.Call.Signature().Results().Len()-1 {
 				return pol, true
 			}
 		}
